@@ -53,7 +53,7 @@ def main():
         })
     man = {
         "version": 1,
-        "setup_cmd": "cd lean && /venv/bin/python gen_twins.py && lake build",
+        "setup_cmd": "cd lean && /venv/bin/python gen_twins.py && /venv/bin/python gen_root.py && lake build",
         "hooks": {
             "guard": "PYREX_VERIF",
             "enable": "no hooks are needed: checks import /repo in-process, feed numpy.random from the harness "
